@@ -308,6 +308,10 @@ class Evaluator:
             r = self.eval(e["right"], env)
             tgt = e["left"]
             cur = self.eval(tgt, env)
+            if op == "+=" and isinstance(cur, str) and isinstance(r, str):
+                if tgt.get("k") == "path" and len(tgt["path"]) == 1 and tgt["path"][0] in env:
+                    env["__assign__"](tgt["path"][0], cur + r)
+                    return ()
             if not (isinstance(cur, int) and isinstance(r, int)) or isinstance(cur, bool):
                 raise Unknown("compound assignment on non-int")
             if op == "-=" and cur < r and not isinstance(cur, SInt):
@@ -486,6 +490,10 @@ class Evaluator:
                 return recv == ""
             if m in ("as_str", "to_string"):
                 return recv
+        if isinstance(recv, str) and m in ("starts_with", "ends_with") and len(e["args"]) == 1:
+            a_ = self.eval(e["args"][0], env)
+            if isinstance(a_, str):
+                return recv.startswith(a_) if m == "starts_with" else recv.endswith(a_)
         if m == "abs" and isinstance(recv, int) and not isinstance(recv, bool):
             return SInt(abs(int(recv)))
         if m == "unsigned_abs" and isinstance(recv, int) and not isinstance(recv, bool):
@@ -641,6 +649,16 @@ class Evaluator:
                 if i < 0 or i >= len(b):
                     raise Panic("index-out-of-bounds", e.get("l"))
                 return b[i]
+        if isinstance(b, str) and isinstance(i, tuple) and i and i[0] == "range":
+            raw = b.encode("utf8")
+            lo = 0 if i[1] is None else i[1]
+            hi = len(raw) if i[2] is None else (i[2] + 1 if i[3] else i[2])
+            if lo > hi or hi > len(raw) or lo < 0:
+                raise Panic("slice-index-out-of-range", e.get("l"))
+            try:
+                return raw[lo:hi].decode("utf8")
+            except UnicodeDecodeError:
+                raise Panic("slice-not-on-char-boundary", e.get("l"))
         raise Unknown("index expression")
 
     def e_for(self, e, env):
